@@ -225,6 +225,23 @@ def _run_task(spec, shard, opts):
         det_c = codec.enc(oc.detail) if not oc.tag.startswith("unexpected:") else None
         res["crosschecked"] += 1
         if oc.tag != o.tag or ok_sym != ok_con or det_s != det_c:
+            if os.environ.get("SYMX_DUMP_MISMATCH") and not isinstance(okz, bool):
+                def _falsy(f, depth=0):
+                    if z3.is_and(f):
+                        for ch in f.children():
+                            if not z3.is_true(m.eval(ch, model_completion=True)):
+                                return _falsy(ch, depth + 1)
+                    return f
+                def _show(f, ind=0):
+                    if z3.is_and(f):
+                        for i, ch in enumerate(f.children()):
+                            v = z3.is_true(m.eval(ch, model_completion=True))
+                            sys.stderr.write("%s[%d] %s %s\n" % (" " * ind, i, v, "AND" if z3.is_and(ch) else ch.sexpr().replace("\n", " ")[-60:]))
+                            if not v:
+                                _show(ch, ind + 2)
+                _show(okz)
+                bad = _falsy(okz)
+                sys.stderr.write("MISMATCH false conjunct: %s\n model: %s\n" % (bad.sexpr()[:3000], str(m)[:500]))
             if len(res["mismatches"]) < 5:
                 res["mismatches"].append(dict(inputs=codec.enc(inp_c), sym=[o.tag, ok_sym, det_s],
                                               ref=[oc.tag, ok_con, det_c]))
